@@ -161,6 +161,10 @@ def io_case(ctx, i, focus):
     codec, sample = ENCODINGS[encname]
     bom_kind = r.choice(["none", "none", "utf8", "utf16le", "utf16be"]) if focus == "c17" or r.random() < 0.3 else "none"
     text = ctx.text(sample)
+    if bom_kind != "none" and r.random() < 0.15:
+        # U+FEFF as the first character of the text itself (after the byte-order mark): it is content, not a second mark
+        text = "\ufeff" + text
+        ctx.bump("text_starts_with_U+FEFF")
     malformed = False
     if bom_kind == "utf8":
         bom, eff = b"\xef\xbb\xbf", "utf8"
